@@ -206,9 +206,21 @@ func HarnessC01_Filter() {
 	now := vfI64("now")
 	vfAssume(vfAnd(now >= vfEpoch, now <= vfEpoch+(1<<31)))
 	vfSetNow(now)
+	// the lookup may happen anywhere inside a second, and the timeout need not
+	// be whole seconds: ages are compared exactly, not in whole seconds
+	half := vfChoice("half", 3) // 0: whole seconds, 1: lookup at .5 s, 2: timeout ends at .5 s
+	nowHalf := int64(0)
+	if half == 1 {
+		nowHalf = 1
+	}
+	vfAdvance(time.Duration(nowHalf) * 500 * time.Millisecond)
 	toSec := vfI64("timeout_s")
 	vfAssume(vfAnd(toSec >= 0, toSec <= 1<<24))
-	timeout := time.Duration(toSec) * time.Second
+	toHalf := int64(0)
+	if half == 2 {
+		toHalf = 1
+	}
+	timeout := time.Duration(toSec)*time.Second + time.Duration(toHalf)*500*time.Millisecond
 	insts := make([]InstanceDesc, l)
 	healthy := make([]bool, l)
 	for i := range insts {
@@ -217,7 +229,7 @@ func HarnessC01_Filter() {
 		ts := vfI64("ts")
 		vfAssume(vfAnd(ts >= vfEpoch-(1<<30), ts <= vfEpoch+(1<<31)))
 		insts[i] = InstanceDesc{Id: vfIDs[i], Addr: vfIDs[i], State: st, Timestamp: ts}
-		healthy[i] = vfAnd(specStateHealthy(opIdx, st), now-ts <= toSec)
+		healthy[i] = vfAnd(specStateHealthy(opIdx, st), 2*(now-ts)+nowHalf <= 2*toSec+toHalf)
 	}
 	in := make([]InstanceDesc, l)
 	copy(in, insts)
